@@ -127,7 +127,7 @@ def run_case(arg):
         with open(path, 'wb') as fo:
             fo.write(data)
         tunits = tables(cfg, tmp)
-        tr = {'tid': tid, 'cfg': cfg, 'nbytes': len(data),
+        tr = {'tid': tid, 'kind': 'roundtrip', 'cfg': cfg, 'nbytes': len(data),
               'expbytes': item['bytes'], 'refwords': words(data),
               'tableunits': tunits}
         raw = {}
@@ -181,7 +181,8 @@ def run(tier):
     out = Outcome(PROP, tier)
     rnd = random.Random(seed() * 7919 + 18)
     r = need_ok(run_tlc('BpchLayout_MC', workers=1, timeout=1200,
-                        env={'PNC_EMIT': '1'}), 'BpchLayout_MC')
+                        env={'PNC_EMIT': '1', 'PNC_BPCH_CUTS': '0'}),
+                'BpchLayout_MC')
     out.add_tlc('BpchLayout_MC: header sizes, skip, tiling, header walk on '
                 'all configurations', r)
     if r.violated:
